@@ -209,6 +209,7 @@ theorem TZ_step (op : Op) (h : TZ c) : TZ (step c op) := by
   | setSched l d => exact h.2
   | tick ms => exact h.2
   | setSmCallback => exact h.2
+  | setSendOnConnect on => exact h.2
   | setFlags f => exact Rs_setFlags h.2
   | usend it => exact Rs_xmppSend h.2
   | uraw it => exact Rs_xmppSendRaw h.2
